@@ -52,6 +52,15 @@ func c16Zone(version int, failing bool) zoneh.Universe {
 	u[zoneh.Key{Name: "c.example", Type: 1}] = zoneh.Resp{Answers: []zoneh.Ans{{Owner: "c.example", Type: 5, TTL: 10, Name: "t.example"}, ans("t.example", 1, 3, 3), ans("t.example", 1, 7, 4)}}
 	u[zoneh.Key{Name: "c.example", Type: 28}] = zoneh.Resp{Answers: []zoneh.Ans{{Owner: "c.example", Type: 5, TTL: 10, Name: "t.example"}}}
 	// c has no HTTPS record: NXDOMAIN by default
+	// d: four HTTPS records served in DEscending priority order (the resolver has to sort them), long TTLs
+	u[zoneh.Key{Name: "d.example", Type: 1}] = zoneh.Resp{Answers: []zoneh.Ans{ans("d.example", 1, 60, 9)}}
+	u[zoneh.Key{Name: "d.example", Type: 28}] = zoneh.Resp{Answers: []zoneh.Ans{ans("d.example", 28, 60, 9)}}
+	u[zoneh.Key{Name: "d.example", Type: 65}] = zoneh.Resp{Answers: []zoneh.Ans{
+		{Owner: "d.example", Type: 65, TTL: 60, HTTPS: &zoneh.HTTPS{Priority: 4, ALPN: []string{"h2"}, ECH: []byte{v, 4}}},
+		{Owner: "d.example", Type: 65, TTL: 60, HTTPS: &zoneh.HTTPS{Priority: 3, ALPN: []string{"h2"}, Port: 8443, ECH: []byte{v, 3}}},
+		{Owner: "d.example", Type: 65, TTL: 60, HTTPS: &zoneh.HTTPS{Priority: 2, ALPN: []string{"h3"}, ECH: []byte{v, 2}}},
+		{Owner: "d.example", Type: 65, TTL: 60, HTTPS: &zoneh.HTTPS{Priority: 1, ALPN: []string{"h2", "http/1.1"}, ECH: []byte{v, 1}}},
+	}}
 	if failing {
 		for k := range u {
 			u[k] = zoneh.Resp{Fail: true}
@@ -277,6 +286,43 @@ func genC16R(env *core.Env, emit func(core.Case)) {
 			}(g)
 		}
 		wg.Wait()
+		// fresh resolvers, all goroutines released at once on a name whose records arrive unsorted:
+		// the moments right after a fetch, when several callers hold the same cached answer
+		for round := 0; round < 12; round++ {
+			rs, err := ech.NewResolver(srv.URL())
+			if err != nil {
+				panic(err)
+			}
+			start := make(chan struct{})
+			var wg2 sync.WaitGroup
+			for g := 0; g < workers; g++ {
+				wg2.Add(1)
+				go func() {
+					defer wg2.Done()
+					<-start
+					for i := 0; i < 3; i++ {
+						res, err := rs.Resolve(context.Background(), "d.example")
+						if err != nil {
+							continue
+						}
+						prio := 0
+						for _, h := range res.HTTPS {
+							if int(h.Priority) < prio {
+								mu.Lock()
+								w = fmt.Sprintf("HTTPS records of d.example not in priority order: %d after %d", h.Priority, prio)
+								mu.Unlock()
+							}
+							prio = int(h.Priority)
+						}
+						for t := range res.Targets("tcp") {
+							_ = t
+						}
+					}
+				}()
+			}
+			close(start)
+			wg2.Wait()
+		}
 		emit(core.Case{Name: fmt.Sprintf("concurrent/%d", workers), Stream: "concurrent", Key: "concurrent", Sig: fmt.Sprintf("concurrent/%d", workers),
 			Ops:    []core.Op{{Kind: 'X', Note: "concurrent Resolve/Targets on one Resolver and on a shared result: no panic, consistent targets (data races: race detector, thorough tier)", Want: w}},
 			Sample: map[string]any{"goroutines": workers}})
